@@ -509,6 +509,40 @@ theorem encrypt0_wire_bytes (m : CoseEncrypt0) (k : Nat) (hk : k + 2 ≤ recursi
   obtain ⟨hn, hd⟩ := encrypt0_emitted_normal m k hk hp hu hpn hun hct x h1
   exact ⟨enc x, m', by simp only [toVec, h1], by simp only [fromSlice, readToValue_enc x hn hd, h2], h5, h6⟩
 
+theorem sign_wire_bytes (m : CoseSign) (k j : Nat) (hk : k + 2 ≤ recursionLimit) (hj : j + 2 ≤ recursionLimit)
+    (hp : ProtectedHeader.WF maxNest m.protected_) (hu : Header.WF maxNest m.unprotected) (hs : sigsWF maxNest m.signatures)
+    (hpn : ProtectedHeader.NF m.protected_) (hun : Header.NF k m.unprotected) (hsn : sigsNF j m.signatures)
+    (hsl : m.signatures.length < 2 ^ 64) (hpl : ∀ b, m.payload = some b → b.length < 2 ^ 64) :
+    ∃ bs m', toVec CoseSign.toValue m = .ok bs ∧ fromSlice CoseSign.fromValue bs = .ok m' ∧ m'.signatures.length = m.signatures.length ∧
+      (∀ {ρ : Type} i aad (V : Bytes → Bytes → ρ), m'.verifySignature i aad V = m.verifySignature i aad V) ∧
+      (∀ {ρ : Type} i pl aad (V : Bytes → Bytes → ρ), m'.verifyDetachedSignature i pl aad V = m.verifyDetachedSignature i pl aad V) := by
+  obtain ⟨x, m', h1, h2, h5, h6, h7⟩ := sign_wire m hp hu hs
+  obtain ⟨hn, hd⟩ := sign_emitted_normal m k j hk hj hp hu hs hpn hun hsn hsl hpl x h1
+  exact ⟨enc x, m', by simp only [toVec, h1], by simp only [fromSlice, readToValue_enc x hn hd, h2], h5, h6, h7⟩
+
+theorem mac_wire_bytes (m : CoseMac) (k j : Nat) (hk : k + 2 ≤ recursionLimit) (hj : j + 2 ≤ recursionLimit)
+    (hp : ProtectedHeader.WF maxNest m.protected_) (hu : Header.WF maxNest m.unprotected) (hr : rcpsWF m.recipients)
+    (hpn : ProtectedHeader.NF m.protected_) (hun : Header.NF k m.unprotected) (hrn : rcpsNF j m.recipients)
+    (hrl : m.recipients.length < 2 ^ 64) (hpl : ∀ b, m.payload = some b → b.length < 2 ^ 64) (htg : m.tag.length < 2 ^ 64) :
+    ∃ bs m', toVec CoseMac.toValue m = .ok bs ∧ fromSlice CoseMac.fromValue bs = .ok m' ∧ (∀ aad, m'.tbm aad = m.tbm aad) ∧ m'.tag = m.tag ∧
+      (∀ {ρ : Type} aad (V : Bytes → Bytes → ρ), m'.verifyTag aad V = m.verifyTag aad V) := by
+  obtain ⟨x, m', h1, h2, h5, h6, h7⟩ := mac_wire m hp hu hr
+  obtain ⟨hn, hd⟩ := mac_emitted_normal m k j hk hj hp hu hr hpn hun hrn hrl hpl htg x h1
+  exact ⟨enc x, m', by simp only [toVec, h1], by simp only [fromSlice, readToValue_enc x hn hd, h2], h5, h6, h7⟩
+
+theorem encrypt_wire_bytes (m : CoseEncrypt) (k j : Nat) (hk : k + 2 ≤ recursionLimit) (hj : j + 2 ≤ recursionLimit)
+    (hp : ProtectedHeader.WF maxNest m.protected_) (hu : Header.WF maxNest m.unprotected) (hr : rcpsWF m.recipients)
+    (hpn : ProtectedHeader.NF m.protected_) (hun : Header.NF k m.unprotected) (hrn : rcpsNF j m.recipients)
+    (hrl : m.recipients.length < 2 ^ 64) (hct : ∀ b, m.ciphertext = some b → b.length < 2 ^ 64) :
+    ∃ bs m', toVec CoseEncrypt.toValue m = .ok bs ∧ fromSlice CoseEncrypt.fromValue bs = .ok m' ∧ m'.ciphertext = m.ciphertext ∧
+      (∀ {ρ : Type} aad (D : Bytes → Bytes → ρ), m'.decrypt aad D = m.decrypt aad D) := by
+  obtain ⟨x, m', h1, h2, h5, h6⟩ := encrypt_wire m hp hu hr
+  obtain ⟨hn, hd⟩ := encrypt_emitted_normal m k j hk hj hp hu hr hpn hun hrn hrl hct x h1
+  exact ⟨enc x, m', by simp only [toVec, h1], by simp only [fromSlice, readToValue_enc x hn hd, h2], h5, h6⟩
+
+#print axioms sign_wire_bytes
+#print axioms mac_wire_bytes
+#print axioms encrypt_wire_bytes
 #print axioms sign1_wire_bytes
 #print axioms mac0_wire_bytes
 #print axioms encrypt0_wire_bytes
